@@ -48,7 +48,7 @@ def seq_form(rng, vals):
 
 def mat(fd):
     if isinstance(fd, str):
-        return fd
+        return "".join(list(fd))      # a string built at run time: equal to, but not the same object as, the literal
     f, v = fd["f"], fd["v"]
     if f == "int":
         return int(v[0])
@@ -114,7 +114,7 @@ def gen(rng, tier):
                 pad = form_of(rng, p, 2)
             else:
                 pad = form_of(rng, p, 2)
-        c = {"kind": kind, "ndim": ndim, "n": n, "p": p, "d": d, "k": k, "s": s,
+        c = {"kind": kind, "ndim": ndim, "n": n, "p": p, "d": d, "k": k, "s": s, "reassign": rng.random() < 0.25,
              "input": seq_form(rng, n) if ndim == 2 else form_of(rng, n, 1) if kind == "util" else {"f": rng.choice(["int", "npint"]), "v": n, "dt": "int64"},
              "padding": pad, "dilation": form_of(rng, d, ndim), "stride": form_of(rng, s, ndim),
              "kernel": form_of(rng, k, ndim), "cin": rng.choice([1, 2, 3]), "cout": rng.choice([1, 2, 4]),
@@ -182,7 +182,7 @@ def run(c):
     exp = expected(c)
     forms = tuple(x if isinstance(x, str) else (x["f"], x.get("dt")) for x in
                   (c["input"], c["padding"], c["dilation"], c["stride"], c["kernel"]))
-    sig = (c["kind"], tuple(c["n"]), tuple(c["p"]), tuple(c["d"]), tuple(c["k"]), tuple(c["s"]), forms, c["pool"], c.get("stale"))
+    sig = (c["kind"], tuple(c["n"]), tuple(c["p"]), tuple(c["d"]), tuple(c["k"]), tuple(c["s"]), forms, c["pool"], c.get("stale"), bool(c.get("reassign")) and c["kind"] == "infer_conv")
     nontriv = (c["ndim"] == 2 and c["k"][0] != c["k"][1]) or any(x != 1 for x in c["s"] + c["d"]) or any(c["p"]) \
         or any(f[0] not in ("int",) for f in forms if not isinstance(f, str))
     fail = None
@@ -227,7 +227,30 @@ def run(c):
         "in": {"k": "Input", "args": {"input_type": np.array([cin] + list(c["n"]), dtype=np.int64)}},
         "mid": mid, "out": {"k": "Output", "args": {"output_type": None}}},
         "edges": [("in", "mid"), ("mid", "out")]}
-    res = run_infer(r)
+    if c.get("reassign") and c["kind"] == "infer_conv":
+        # the convolution is first built around a weight with ANOTHER kernel size and then given its real weight (a field
+        # assignment, e.g. after loading a checkpoint); inference must use the weight the node has when it runs
+        import copy
+        from .common import quiet, time_limit, Timeout
+        r0 = copy.deepcopy(r)
+        r0["nodes"]["mid"]["args"]["weight"] = np.zeros((c["cout"], c["cin"], *[k + 2 for k in c["k"]]), dtype=np.float32)
+        b = try_build(r0)
+        if b[0] != "ok":
+            res = b
+        else:
+            g0 = b[1]
+            g0.nodes["mid"].weight = r["nodes"]["mid"]["args"]["weight"]
+            raised, name = False, None
+            try:
+                with time_limit(10), quiet():
+                    g0.infer_types()
+            except Timeout:
+                raise
+            except BaseException as e:  # noqa: BLE001
+                raised, name = True, type(e).__name__
+            res = ("ok", g0, raised, name)
+    else:
+        res = run_infer(r)
     coq = f"(ConvG {cinfer(r, res)})"
     if res[0] != "ok" or res[2]:
         fail = f"infer_types raised {res[-1]} on Input({[cin] + c['n']})->{mid['k']}->Output(None), n={c['n']} k={c['k']} s={c['s']} p={c['padding']} d={c['d']}"
